@@ -7,6 +7,10 @@ CHECKS = {
  'C08': dict(level=MC, tech='TLA+ contract model (Instant.tla) checked by TLC for its algebraic laws; trace validation of recorded library calls against it',
    text='E1: TLC checks the laws the property states (add/diff inverse, antisymmetry, elapsed time, fixup keeps the point in time, epoch round trip, ordering) on the TLA+ instant model for every pair of instants in a window with leap day and year end. E2: every recorded call of echs_instant_diff/add/fixup/to_epoch, epoch_to_echs_instant, the ordering predicates (and echsd instant_to_tstamp) on a day-exhaustive grid 1901-2099 x 14 anchors plus seeded second/ms pairs is evaluated by TLC against that model; any mismatch is a violation.',
    note='trusted: TLC, Cal.tla/Instant.tla (self-checked by the E1 laws), the printing-only C driver. Thorough tier enumerates every day of 1901-2099; the second/ms level is sampled.', ref='3/C08'),
+
+ 'C19': dict(level=MC, tech='TLA+ mechanism model of the three container representations model-checked against the abstract set; trace validation of recorded insert/iterate/has sequences',
+   text='E1: TLC explores every insertion sequence (length <= 5, width 4, native capacity 2) of the mechanism model BitintRep (inline single value / bitset / sorted native array with degrade) and checks it refines the abstract set, incl. the iterator protocol. E2: recorded sequences on the six real containers (all singletons, ordered pairs, triples, seeded random up to 40 inserts) are judged by TLC: members = inserted values, iteration = each member exactly once and terminates, has() exact; the decoded representation words and iteration order are additionally compared with the mechanism model at full width (drift report).',
+   note='trusted: TLC, the printing-only driver. Ranges as documented in the property (0..30, 0..62, +-31, +-63, +-383, +-447); larger types sampled beyond pairs.', ref='3/C19'),
 }
 NA_REASON = 'check not built yet (construction in progress, see DESIGN.md section 10)'
 hooks = {'guard': 'HROPTATYR_ECHSE_VERIF', 'enable': 'no hooks in /repo: checks compile /repo/src as it is (harness/build.sh) and observe through existing seams', 'baseline_off_cmd': 'make -C /repo check', 'source_commits': [], 'add_only': True}
